@@ -29,6 +29,8 @@ def main():
         rc, out = sh(f"git -C /repo worktree add -q --detach {WT} HEAD")
         assert rc == 0, out
     sh("git checkout -q -- . && git clean -fdq", cwd=WT)
+    _, head = sh("git -C /repo rev-parse HEAD")
+    sh(f"git checkout -q --detach {head.strip()}", cwd=WT)
     res = {"property": a.prop, "patch": os.path.basename(a.patch)}
     rc0, out0 = sh(f"PYTHONPATH={WT} {PY} {a.demo}", cwd=WT)
     res["demo_clean"] = (rc0, out0.strip().splitlines()[-1:] )
